@@ -35,4 +35,5 @@ for i in ids:
     else: missed += 1
     print("%-5s %s%s" % (i, "caught by " + hit if hit else "NOT caught (tried %s)" % ",".join(props), "  (recorded as not detected)" if expected_miss else ""), flush=True)
 sh("cargo build --offline", ROOT + "/harness")
+sh("git checkout -- evidence")   # the runs above rewrote evidence/ with data of changed trees
 print("caught %d, not caught %d" % (caught, missed))
